@@ -20,8 +20,15 @@ class VErr(Exception):
         self.vid = i
 
 
+class VBaseErr(BaseException):
+    """a fault that is not an Exception (like KeyboardInterrupt, SystemExit or a timeout signal class)"""
+    def __init__(self, i):
+        BaseException.__init__(self, i)
+        self.vid = i
+
+
 def eid(e):
-    if isinstance(e, VErr):
+    if isinstance(e, (VErr, VBaseErr)):
         return e.vid
     if isinstance(e, TypeError):
         return -1
@@ -105,8 +112,13 @@ class HBatch(BatchBase):
             T.nested_call(nested)
         ra = T.kinds.get(str(self.kind), {}).get("raise")
         i = 0
+        via_cancel = T.kinds.get(str(self.kind), {}).get("via_cancel")
         for it in list(self.items):
             if ra is not None and i == ra[0]:
+                if via_cancel:
+                    # the body gives up by cancelling its own batch and returns normally: same outcome as raising
+                    self.cancel(T.err(ra[1]))
+                    return
                 raise T.err(ra[1])
             a = it.act
             if a == "skip":
@@ -117,6 +129,9 @@ class HBatch(BatchBase):
                 it.set_error(T.err(a["err"]))
             i += 1
         if ra is not None and i == ra[0]:
+            if via_cancel:
+                self.cancel(T.err(ra[1]))
+                return
             raise T.err(ra[1])
 
     def _cancel(self):
@@ -206,6 +221,8 @@ class _EvList(list):
 
 
 class Tr:
+    Hang = _common.Hang
+
     def __init__(self, case):
         self.full = []
         self.ev = _EvList(self.full)
@@ -215,6 +232,9 @@ class Tr:
         self.vars = {}
         self.errs = {}
         self.counter = 0
+        self.base_errors = bool(case.get("params", {}).get("base_errors"))
+        self.vary_bad = bool(case.get("params", {}).get("vary_bad"))
+        self.nbad = 0
 
     def aux(self, e):
         self.full.append(e)
@@ -230,10 +250,20 @@ class Tr:
         raise ValueError(v)
 
     def err(self, i):
+        # params.base_errors: every third fault id is a BaseException that is not an Exception
+        if self.base_errors and i % 3 == 0:
+            return VBaseErr(i)
         return VErr(i)
 
+    def lazy_err(self, i):
+        return VErr(i)      # Future._compute stores Exceptions only (futures.py 197-201): lazy providers raise Exceptions
+
+    BADS = (12345, 0, "", False, 0.0, b"", "abc")
+
     def bad(self):
-        return 12345
+        # a yielded object that is neither a future nor None nor a container; falsy ones included
+        self.nbad += 1
+        return self.BADS[(self.nbad - 1) % len(self.BADS)] if self.vary_bad else 12345
 
     # --- creation
     def _alloc(self, _id, _n):
@@ -270,9 +300,10 @@ class Tr:
 
     def new_lazy(self, o, _id, _n):
         def provider():
+            self.aux({"AuxLazyRun": [list(cid)]})
             if "ok" in o:
                 return self.pyval(o["ok"])
-            raise self.err(o["err"])
+            raise self.lazy_err(o["err"])
         cid = self._alloc(_id, _n)
         f = Future(provider)
         f.on_computed.subscribe(lambda f, cid=cid: self.aux({"AuxLazyDone": [list(cid)]}))
@@ -490,7 +521,7 @@ def run_one(c):
             try:
                 v = h.value()
                 outs.append({"Some": [{"Ok": [tv(v)]}]})
-            except Exception as e:
+            except (Exception, VBaseErr) as e:
                 outs.append({"Some": [{"Err": [eid(e)]}]})
             T.sched()
         final_ev = list(T.ev)      # events after this point are finalisers of abandoned generators (GC), not asynq
@@ -543,10 +574,12 @@ def run_case(c):
     """default-options run; with c["variants"] (C20) also one run per option variant, each on a fresh scheduler"""
     if c.get("chain"):
         return run_chain(c)
+    _common.note("base")
     r = run_one(c)
     if c.get("variants"):
         vs = []
-        for v in c["variants"]:
+        for i_v, v in enumerate(c["variants"]):
+            _common.note("variant %d" % i_v)
             c2 = dict(c)
             p2 = dict(c.get("params", {}))
             p2["options"] = v.get("options", {})
